@@ -399,7 +399,7 @@ func hostileKeys(b *baseScenario) map[string]intoto.Key {
 			KeyVal: intoto.KeyVal{Public: pub, Private: priv}}
 	}
 	edPEM := string(ed.PubPEM)
-	return map[string]intoto.Key{
+	keys := map[string]intoto.Key{
 		"F15-ed25519-public-abcd":              mk(ed.Pub.KeyID, "ed25519", "ed25519", "abcd", ""),
 		"F15-ed25519-public-odd-hex":           mk(ed.Pub.KeyID, "ed25519", "ed25519", "abc", ""),
 		"F15-ed25519-public-31-bytes":          mk(ed.Pub.KeyID, "ed25519", "ed25519", hex64[:62], ""),
@@ -445,6 +445,67 @@ func hostileKeys(b *baseScenario) map[string]intoto.Key {
 		"key/rsa-private-of-other-key":         mk(rsa.Pub.KeyID, "rsa", "rsassa-pss-sha256", rsa.Pub.KeyVal.Public, pool("rsa3072").Priv.KeyVal.Private),
 		"key/zero":                             {},
 	}
+	// PEM texts with MORE THAN ONE block (and text around the blocks): the guard of getSignerVerifierFromKey and
+	// the go-securesystemslib constructors must agree on which block is the key.  Declared type T in {rsa, ecdsa};
+	// first block: a key of another algorithm / a certificate / garbage DER under a non-key, a key or a certificate
+	// label; second block: a regular key of type T.
+	der := func(pemBytes []byte) []byte {
+		blk, _ := pem.Decode(pemBytes)
+		if blk == nil {
+			return nil
+		}
+		return blk.Bytes
+	}
+	blockOf := func(label string, d []byte) string {
+		return string(pem.EncodeToMemory(&pem.Block{Type: label, Bytes: d}))
+	}
+	type material struct {
+		name      string
+		pub, priv []byte
+	}
+	firsts := []material{
+		{"rsa", der(rsa.PubPEM), der(rsa.PrivPEM)},
+		{"ecdsa", der(ec.PubPEM), der(ec.PrivPEM)},
+		{"ed25519", der(ed.PubPEM), der(ed.PrivPEM)},
+		{"cert", der([]byte(b.leaf.Key.KeyVal.Certificate)), der([]byte(b.leaf.Key.KeyVal.Certificate))},
+		{"garbage", []byte{0x30, 0x03, 0x02, 0x01, 0x00}, []byte{0x30, 0x03, 0x02, 0x01, 0x00}},
+	}
+	declared := []struct {
+		typ, scheme string
+		kp          lib.KeyPair
+	}{{"rsa", "rsassa-pss-sha256", rsa}, {"ecdsa", "ecdsa-sha2-nistp256", ec}}
+	for _, d := range declared {
+		for _, f := range firsts {
+			if f.name == d.typ {
+				continue
+			}
+			for _, label := range []string{"EC PARAMETERS", "FOO", "PUBLIC KEY", "CERTIFICATE", "PRIVATE KEY", ""} {
+				tag := strings.ReplaceAll(label, " ", "-")
+				if tag == "" {
+					tag = "empty-label"
+				}
+				n := fmt.Sprintf("multiblock/%s-declared-first-%s-as-%s", d.typ, f.name, tag)
+				keys[n+"-public"] = mk(d.kp.Pub.KeyID, d.typ, d.scheme, blockOf(label, f.pub)+d.kp.Pub.KeyVal.Public, "")
+				keys[n+"-private"] = mk(d.kp.Pub.KeyID, d.typ, d.scheme, d.kp.Pub.KeyVal.Public, blockOf(label, f.priv)+d.kp.Priv.KeyVal.Private)
+				keys[n+"-both"] = mk(d.kp.Pub.KeyID, d.typ, d.scheme, blockOf(label, f.pub)+d.kp.Pub.KeyVal.Public, blockOf(label, f.priv)+d.kp.Priv.KeyVal.Private)
+			}
+		}
+		other := rsa
+		if d.typ == "rsa" {
+			other = ec
+		}
+		// regular key first, foreign material second; text before / between / after the blocks
+		keys["multiblock/"+d.typ+"-regular-then-other-public"] = mk(d.kp.Pub.KeyID, d.typ, d.scheme, d.kp.Pub.KeyVal.Public+other.Pub.KeyVal.Public, "")
+		keys["multiblock/"+d.typ+"-other-then-regular-public"] = mk(d.kp.Pub.KeyID, d.typ, d.scheme, other.Pub.KeyVal.Public+d.kp.Pub.KeyVal.Public, "")
+		keys["multiblock/"+d.typ+"-leading-text"] = mk(d.kp.Pub.KeyID, d.typ, d.scheme, "garbage before\n-----BEGIN FOO\n"+d.kp.Pub.KeyVal.Public, "")
+		keys["multiblock/"+d.typ+"-trailing-text"] = mk(d.kp.Pub.KeyID, d.typ, d.scheme, d.kp.Pub.KeyVal.Public+"trailing\x00text-----BEGIN", d.kp.Priv.KeyVal.Private+"\n\n-----END PRIVATE KEY-----\n")
+		keys["multiblock/"+d.typ+"-text-between"] = mk(d.kp.Pub.KeyID, d.typ, d.scheme, blockOf("EC PARAMETERS", der(other.PubPEM))+"between\n"+d.kp.Pub.KeyVal.Public, "")
+		keys["multiblock/"+d.typ+"-headers-in-first-block"] = mk(d.kp.Pub.KeyID, d.typ, d.scheme,
+			string(pem.EncodeToMemory(&pem.Block{Type: "EC PARAMETERS", Headers: map[string]string{"Proc-Type": "4,ENCRYPTED"}, Bytes: der(other.PubPEM)}))+d.kp.Pub.KeyVal.Public, "")
+		keys["multiblock/"+d.typ+"-three-blocks"] = mk(d.kp.Pub.KeyID, d.typ, d.scheme, blockOf("FOO", der(ed.PubPEM))+blockOf("BAR", der(other.PubPEM))+d.kp.Pub.KeyVal.Public, "")
+		keys["multiblock/"+d.typ+"-malformed-first-block"] = mk(d.kp.Pub.KeyID, d.typ, d.scheme, "-----BEGIN EC PARAMETERS-----\n!!!!\n-----END EC PARAMETERS-----\n"+d.kp.Pub.KeyVal.Public, "")
+	}
+	return keys
 }
 
 func genKeys(b *baseScenario) []job {
@@ -457,6 +518,8 @@ func genKeys(b *baseScenario) []job {
 			klass = "F15-ed25519-key-length"
 		} else if strings.HasPrefix(name, "F15-") {
 			klass = "F15-pem-contradicts-key-type"
+		} else if strings.HasPrefix(name, "multiblock/") {
+			klass = "key/multi-block-pem"
 		}
 		in := &Input{Entry: "key", Note: name, Key: &k}
 		jobs = append(jobs, job{klass: klass, in: in, model: modelFor(in)})
@@ -683,27 +746,31 @@ func genHostileSignatures(b *baseScenario) []job {
 	edCertLeaf := b.ca.NewLeaf(lib.CertOpts{CN: "ed", KeyKind: "ed25519"})
 	rsaCertLeaf := b.ca.NewLeaf(lib.CertOpts{CN: "rsa", KeyKind: "rsa2048"})
 	sigs := map[string][]intoto.Signature{
-		"sig/non-hex":           {{KeyID: kp.Pub.KeyID, Sig: "zz"}},
-		"sig/odd-length":        {{KeyID: kp.Pub.KeyID, Sig: goodSig.Sig[:len(goodSig.Sig)-1]}},
-		"sig/empty":             {{KeyID: kp.Pub.KeyID, Sig: ""}},
-		"sig/short":             {{KeyID: kp.Pub.KeyID, Sig: "abcd"}},
-		"sig/long":              {{KeyID: kp.Pub.KeyID, Sig: strings.Repeat("ab", 5000)}},
-		"sig/empty-keyid":       {{KeyID: "", Sig: goodSig.Sig}},
-		"sig/keyid-prefix-only": {{KeyID: kp.Pub.KeyID[:8], Sig: goodSig.Sig}},
-		"sig/duplicate-keyids":  {goodSig, goodSig, {KeyID: kp.Pub.KeyID, Sig: "00"}},
-		"sig/none":              {},
-		"cert/garbage":          {{KeyID: kp.Pub.KeyID, Sig: goodSig.Sig, Certificate: "garbage"}},
-		"cert/empty-pem":        {{KeyID: b.leaf.Key.KeyID, Sig: goodSig.Sig, Certificate: "-----BEGIN CERTIFICATE-----\n-----END CERTIFICATE-----\n"}},
-		"cert/truncated":        {{KeyID: b.leaf.Key.KeyID, Sig: goodSig.Sig, Certificate: leafCert[:len(leafCert)/2]}},
-		"cert/bad-der":          {{KeyID: b.leaf.Key.KeyID, Sig: goodSig.Sig, Certificate: string(pem.EncodeToMemory(&pem.Block{Type: "CERTIFICATE", Bytes: []byte{0x30, 0x03, 1, 2, 3}}))}},
-		"cert/is-public-key":    {{KeyID: kp.Pub.KeyID, Sig: goodSig.Sig, Certificate: string(kp.PubPEM)}},
-		"cert/is-private-key":   {{KeyID: kp.Pub.KeyID, Sig: goodSig.Sig, Certificate: string(kp.PrivPEM)}},
-		"cert/ca-as-leaf":       {{KeyID: b.ca.Key.KeyID, Sig: goodSig.Sig, Certificate: caCert}},
-		"cert/ed25519-leaf":     {{KeyID: edCertLeaf.Key.KeyID, Sig: goodSig.Sig, Certificate: edCertLeaf.Key.KeyVal.Certificate}},
-		"cert/rsa-leaf-bad-sig": {{KeyID: rsaCertLeaf.Key.KeyID, Sig: goodSig.Sig, Certificate: rsaCertLeaf.Key.KeyVal.Certificate}},
-		"cert/forged-keyid":     {{KeyID: "ffffffff" + b.leaf.Key.KeyID[8:], Sig: goodSig.Sig, Certificate: leafCert}},
-		"cert/two-pem-blocks":   {{KeyID: b.leaf.Key.KeyID, Sig: goodSig.Sig, Certificate: leafCert + caCert}},
-		"cert/huge":             {{KeyID: b.leaf.Key.KeyID, Sig: goodSig.Sig, Certificate: "-----BEGIN CERTIFICATE-----\n" + strings.Repeat("QUFB", 50000) + "\n-----END CERTIFICATE-----\n"}},
+		"sig/non-hex":                   {{KeyID: kp.Pub.KeyID, Sig: "zz"}},
+		"sig/odd-length":                {{KeyID: kp.Pub.KeyID, Sig: goodSig.Sig[:len(goodSig.Sig)-1]}},
+		"sig/empty":                     {{KeyID: kp.Pub.KeyID, Sig: ""}},
+		"sig/short":                     {{KeyID: kp.Pub.KeyID, Sig: "abcd"}},
+		"sig/long":                      {{KeyID: kp.Pub.KeyID, Sig: strings.Repeat("ab", 5000)}},
+		"sig/empty-keyid":               {{KeyID: "", Sig: goodSig.Sig}},
+		"sig/keyid-prefix-only":         {{KeyID: kp.Pub.KeyID[:8], Sig: goodSig.Sig}},
+		"sig/duplicate-keyids":          {goodSig, goodSig, {KeyID: kp.Pub.KeyID, Sig: "00"}},
+		"sig/none":                      {},
+		"cert/garbage":                  {{KeyID: kp.Pub.KeyID, Sig: goodSig.Sig, Certificate: "garbage"}},
+		"cert/empty-pem":                {{KeyID: b.leaf.Key.KeyID, Sig: goodSig.Sig, Certificate: "-----BEGIN CERTIFICATE-----\n-----END CERTIFICATE-----\n"}},
+		"cert/truncated":                {{KeyID: b.leaf.Key.KeyID, Sig: goodSig.Sig, Certificate: leafCert[:len(leafCert)/2]}},
+		"cert/bad-der":                  {{KeyID: b.leaf.Key.KeyID, Sig: goodSig.Sig, Certificate: string(pem.EncodeToMemory(&pem.Block{Type: "CERTIFICATE", Bytes: []byte{0x30, 0x03, 1, 2, 3}}))}},
+		"cert/is-public-key":            {{KeyID: kp.Pub.KeyID, Sig: goodSig.Sig, Certificate: string(kp.PubPEM)}},
+		"cert/is-private-key":           {{KeyID: kp.Pub.KeyID, Sig: goodSig.Sig, Certificate: string(kp.PrivPEM)}},
+		"cert/ca-as-leaf":               {{KeyID: b.ca.Key.KeyID, Sig: goodSig.Sig, Certificate: caCert}},
+		"cert/ed25519-leaf":             {{KeyID: edCertLeaf.Key.KeyID, Sig: goodSig.Sig, Certificate: edCertLeaf.Key.KeyVal.Certificate}},
+		"cert/rsa-leaf-bad-sig":         {{KeyID: rsaCertLeaf.Key.KeyID, Sig: goodSig.Sig, Certificate: rsaCertLeaf.Key.KeyVal.Certificate}},
+		"cert/forged-keyid":             {{KeyID: "ffffffff" + b.leaf.Key.KeyID[8:], Sig: goodSig.Sig, Certificate: leafCert}},
+		"cert/two-pem-blocks":           {{KeyID: b.leaf.Key.KeyID, Sig: goodSig.Sig, Certificate: leafCert + caCert}},
+		"cert/multiblock-foreign-first": {{KeyID: b.leaf.Key.KeyID, Sig: goodSig.Sig, Certificate: string(pem.EncodeToMemory(&pem.Block{Type: "EC PARAMETERS", Bytes: func() []byte { blk, _ := pem.Decode(pool("rsa2048").PubPEM); return blk.Bytes }()})) + leafCert}},
+		"cert/multiblock-key-then-cert": {{KeyID: b.leaf.Key.KeyID, Sig: goodSig.Sig, Certificate: string(pool("rsa2048").PubPEM) + leafCert}},
+		"cert/multiblock-cert-then-key": {{KeyID: b.leaf.Key.KeyID, Sig: goodSig.Sig, Certificate: leafCert + string(pool("rsa2048").PubPEM)}},
+		"cert/leading-text":             {{KeyID: b.leaf.Key.KeyID, Sig: goodSig.Sig, Certificate: "text\n-----BEGIN X\n" + leafCert + "trailing"}},
+		"cert/huge":                     {{KeyID: b.leaf.Key.KeyID, Sig: goodSig.Sig, Certificate: "-----BEGIN CERTIFICATE-----\n" + strings.Repeat("QUFB", 50000) + "\n-----END CERTIFICATE-----\n"}},
 	}
 	for _, name := range lib.SortedKeys(sigs) {
 		mb := intoto.Metablock{Signed: link, Signatures: sigs[name]}
